@@ -1,0 +1,60 @@
+//go:build verif
+
+package discovery
+
+// Contracts for govc (see /verif/DESIGN.md). Comment-only file: contributes no code.
+
+// ---- C03: the endpoint repository. Lock discipline (device 1) + snapshots are fresh copies (device 3).
+
+//@ spec func urlKey(u *url.URL) string = purecall("(*net/url.URL).String", "string", u)
+//@ spec func sameRecord(a *domain.Endpoint, b *domain.Endpoint) bool = a.Name == b.Name && a.URLString == b.URLString && a.Status == b.Status && a.Priority == b.Priority && a.Type == b.Type && a.URL == b.URL && a.PreservePath == b.PreservePath && a.NextCheckTime == b.NextCheckTime && a.BackoffMultiplier == b.BackoffMultiplier && a.ConsecutiveFailures == b.ConsecutiveFailures && a.CheckInterval == b.CheckInterval && a.HealthCheckURLString == b.HealthCheckURLString
+
+//@ type StaticEndpointRepository
+//@   guarded_by mu: endpoints
+//@   repinv self.endpoints != nil
+//@   repinv forall k string :: has(self.endpoints, k) ==> self.endpoints[k] != nil && allocated(self.endpoints[k])
+
+//@ func (r *StaticEndpointRepository) GetHealthy
+//@   property C03
+//@   refines domain.EndpointRepository.GetHealthy
+//@   loop 1 invariant forall key string :: has(r.endpoints, key) ==> r.endpoints[key] != nil && !fresh(r.endpoints[key])
+//@   loop 1 invariant forall k int :: 0 <= k && k < len(healthy) ==> healthy[k] != nil && fresh(healthy[k]) && allocated(healthy[k]) && healthy[k].Status == "healthy" && (exists key string :: seen(key) && sameRecord(healthy[k], r.endpoints[key]))
+//@   loop 1 invariant forall key string :: seen(key) && r.endpoints[key].Status == "healthy" ==> (exists k int :: 0 <= k && k < len(healthy) && sameRecord(healthy[k], r.endpoints[key]))
+//@   ensures err == nil
+//@   ensures forall k int :: 0 <= k && k < len(res) ==> res[k] != nil && fresh(res[k]) && res[k].Status == "healthy" && (exists key string :: has(r.endpoints, key) && sameRecord(res[k], r.endpoints[key]))
+//@   ensures forall key string :: has(r.endpoints, key) && r.endpoints[key].Status == "healthy" ==> (exists k int :: 0 <= k && k < len(res) && sameRecord(res[k], r.endpoints[key]))
+
+//@ func (r *StaticEndpointRepository) GetRoutable
+//@   property C03
+//@   refines domain.EndpointRepository.GetRoutable
+//@   loop 1 invariant forall key string :: has(r.endpoints, key) ==> r.endpoints[key] != nil && !fresh(r.endpoints[key])
+//@   loop 1 invariant forall k int :: 0 <= k && k < len(routable) ==> routable[k] != nil && fresh(routable[k]) && allocated(routable[k]) && isRoutable(routable[k].Status) && (exists key string :: seen(key) && sameRecord(routable[k], r.endpoints[key]))
+//@   loop 1 invariant forall key string :: seen(key) && isRoutable(r.endpoints[key].Status) ==> (exists k int :: 0 <= k && k < len(routable) && sameRecord(routable[k], r.endpoints[key]))
+//@   ensures err == nil
+//@   ensures forall k int :: 0 <= k && k < len(res) ==> res[k] != nil && fresh(res[k]) && isRoutable(res[k].Status) && (exists key string :: has(r.endpoints, key) && sameRecord(res[k], r.endpoints[key]))
+//@   ensures forall key string :: has(r.endpoints, key) && isRoutable(r.endpoints[key].Status) ==> (exists k int :: 0 <= k && k < len(res) && sameRecord(res[k], r.endpoints[key]))
+
+//@ func (r *StaticEndpointRepository) GetAll
+//@   property C03 C07
+//@   refines domain.EndpointRepository.GetAll
+//@   loop 1 invariant forall key string :: has(r.endpoints, key) ==> r.endpoints[key] != nil && !fresh(r.endpoints[key])
+//@   loop 1 invariant forall k int :: 0 <= k && k < len(endpoints) ==> endpoints[k] != nil && fresh(endpoints[k]) && allocated(endpoints[k]) && (exists key string :: seen(key) && sameRecord(endpoints[k], r.endpoints[key]))
+//@   loop 1 invariant forall key string :: seen(key) ==> (exists k int :: 0 <= k && k < len(endpoints) && sameRecord(endpoints[k], r.endpoints[key]))
+//@   ensures err == nil
+//@   ensures forall k int :: 0 <= k && k < len(res) ==> res[k] != nil && fresh(res[k]) && (exists key string :: has(r.endpoints, key) && sameRecord(res[k], r.endpoints[key]))
+//@   ensures forall key string :: has(r.endpoints, key) ==> (exists k int :: 0 <= k && k < len(res) && sameRecord(res[k], r.endpoints[key]))
+
+//@ func (r *StaticEndpointRepository) UpdateEndpoint
+//@   property C03 C07
+//@   requires endpoint != nil && endpoint.URL != nil
+//@   modifies domain.Endpoint.Status, domain.Endpoint.LastChecked, domain.Endpoint.ConsecutiveFailures, domain.Endpoint.BackoffMultiplier, domain.Endpoint.NextCheckTime, domain.Endpoint.LastLatency
+//@   ensures !has(r.endpoints, urlKey(endpoint.URL)) ==> err != nil
+//@   ensures !has(r.endpoints, urlKey(endpoint.URL)) ==> (forall p *domain.Endpoint :: p.Status == old(p.Status) && p.NextCheckTime == old(p.NextCheckTime) && p.ConsecutiveFailures == old(p.ConsecutiveFailures) && p.BackoffMultiplier == old(p.BackoffMultiplier))
+//@   ensures has(r.endpoints, urlKey(endpoint.URL)) ==> err == nil
+//@   ensures has(r.endpoints, urlKey(endpoint.URL)) ==> r.endpoints[urlKey(endpoint.URL)].Status == old(endpoint.Status) && r.endpoints[urlKey(endpoint.URL)].NextCheckTime == old(endpoint.NextCheckTime) && r.endpoints[urlKey(endpoint.URL)].ConsecutiveFailures == old(endpoint.ConsecutiveFailures) && r.endpoints[urlKey(endpoint.URL)].BackoffMultiplier == old(endpoint.BackoffMultiplier) && r.endpoints[urlKey(endpoint.URL)].LastChecked == old(endpoint.LastChecked)
+//@   ensures forall p *domain.Endpoint :: p != r.endpoints[urlKey(endpoint.URL)] ==> p.Status == old(p.Status) && p.NextCheckTime == old(p.NextCheckTime) && p.ConsecutiveFailures == old(p.ConsecutiveFailures) && p.BackoffMultiplier == old(p.BackoffMultiplier) && p.LastChecked == old(p.LastChecked) && p.LastLatency == old(p.LastLatency)
+
+//@ func (r *StaticEndpointRepository) Exists
+//@   property C03
+//@   requires endpointURL != nil
+//@   ensures res == has(r.endpoints, urlKey(endpointURL))
